@@ -23,6 +23,8 @@ pub use error::{Error, Result};
 pub mod payment_vault;
 #[path = "gen/put_validation.rs"]
 pub mod put_validation;
+#[path = "gen/split_items.rs"]
+pub mod split_items;
 #[path = "gen/client_items.rs"]
 pub mod client_items;
 mod runner;
